@@ -167,6 +167,28 @@ CHECKS = {
     technique="Lean 4 theorems (invariant by induction over steps, schedule-independence of the catch-up loop, decide +kernel witnesses); bit-exact differential correspondence",
     design="3/C06",
     note="Exact arithmetic: the accumulated increments U += dU equal the closed-form lerp only up to rounding (oracle tolerance 1e-9); float32 forcing files are not compared bit-exactly."),
+ "C11": dict(
+    text="Proof: with copied memory a particle is repositioned only if a record with its pid exists and holds exactly its current "
+         "position, and every such particle is (distinct pids); with aliased memory this holds only right after a reallocation "
+         "(alias_partial) and fails otherwise (proved witness) - KNOWN FINDING for chemicals under the real LADiM State "
+         "(snapshot-pinned); re-seeded positions stay in the cell; is_close_to_land iff a land cell in the clamped "
+         "eight-neighbourhood; nearest_unmasked returns an unmasked cell of the nine that no other unmasked one beats; "
+         "guarded directed swimming ends on the old position or in grid and at sea; non-flagged particles are not moved. Tie: decisions "
+         "over multi-step histories under the real ladim.state.State (in-place tracker writes, append/remove) and fresh-array stubs "
+         "against Memory.decides; helper queries and re-seeded coordinates exactly.",
+    technique="Lean 4 theorems (lookup-by-identity decision logic with an alias/snapshot variant, argmin and stencil specs); differential correspondence under the real State",
+    design="3/C11"),
+ "C13": dict(
+    text="Proof: the two-frame cache is transparent for EVERY request history (serve = map load; invariant 'cached value = load key' "
+         "with distinct keys, preserved by push/prune), a miss is exactly a key not cached, two live frames; forward time weights give the "
+         "linear interpolant, the stored field at whole hours, a value between the two fields; the code's backward weights are the "
+         "time-mirrored interpolant and return the next hour at whole hours - KNOWN FINDING (snapshot-pinned); hour fraction in [0,1) "
+         "and zero exactly at whole hours; in-grid positions get valid metric indices (witness for the unclamped limit); z2k monotone, "
+         "exact at knots, clamped. Tie: miss pattern of the real Buffer/OnlineDatabase on synthetic daily files, interp bit-exact "
+         "(variant detected), metric index; oracle against scipy interpolation of the file contents, history independence.",
+    technique="Lean 4 theorems (cache invariant by induction over request histories, algebraic identities, interpolation lemmas); differential correspondence",
+    design="3/C13",
+    note="ll2xy (pyproj) is compared with the file's coordinate arrays only."),
 }
 
 def main():
